@@ -7,40 +7,46 @@ import vlib
 PID = "C04"
 
 CLAIM = dict(
-    text="Proof, partial. An executable Coq model of the statement/expression half of resolution.rs (Resolver.v: import "
-         "naming, let, new with its two-pass argument table, the four-rule name inference and "
+    text="Proof, partial only in scope. An executable Coq model of the statement/expression half of resolution.rs "
+         "(Resolver.v: import naming, let, new with its two-pass argument table, the four-rule name inference and "
          "find_matching_interface_name, named/spread/fill arguments, access chains and alias_export, export naming, "
          "spread export, every error variant of these paths with the start of its primary span) over the C12 AST and "
          "the validated graph model Graph.v; LANGUAGE.md restated independently (LangSpec.v) as per-import binding "
          "rules (explicit argument, else first exporting spread in spread order, else `...`, else missing) and as a "
-         "reference evaluation to compositions of values. Machine-checked (13 theorems, closed): argument names follow "
-         "the documented inference rules (arg_name_spec); after a successful `new` the argument table binds every import "
-         "of the instantiated package by the first applicable rule -- explicit argument, else first exporting spread in "
-         "spread order through the alias of that export, else implicit when `...` is present, never missing -- and every "
-         "table entry is an argument of the instantiation in the graph (arg_binding_spec_partial: the converse inclusion "
-         "is left to the correspondence); one spread adds exactly the still-unbound imports its instance exports, at "
-         "least one, and `...` is accepted only last (spread_fill_spec, fill_must_be_last); access expressions select "
-         "the documented export and yield its alias, with the two diagnostics otherwise (access_spec); import and export "
-         "names incl. spread export (import_name_spec, export_name_spec, export_spread_name_spec); a let only names and "
-         "expressions only extend the graph (let_only_names, expressions_only_extend); for each of the nine "
-         "ill-formedness classes the condition is equivalent to its diagnostic at the construct that detects it "
-         "(illformed_rejected_partial: the whole-document simulation between resolve and the reference evaluation is "
-         "not proved); the reference AS WRITTEN is contradicted by the faithful model in two places "
+         "reference evaluation `denote` to compositions of values. Machine-checked (18 theorems, closed): "
+         "(document_simulation, illformed_rejected) for EVERY document without a `targets` clause, under a "
+         "well-formed universe, the model resolves iff the reference denotes a composition, the resulting graph then "
+         "DENOTES that composition (relation Rel: every node has a kind-correct value, scope/exports/explicit imports "
+         "are the denoted ones in order, the argument edges of every instantiation are exactly the bound imports with the "
+         "denoted values -- spelled out on get_args/get_alias_source/exports/imports by composition_observed), the "
+         "reference makes the document ill-formed with class c (and name) iff the model rejects it with a diagnostic "
+         "of that class, and the model never panics; (arg_binding_spec) after a successful `new` the argument table "
+         "binds every import by the first applicable rule and Graph.get_args of the new node is EXACTLY the table "
+         "(both inclusions; the resolver's graphs are reachable, hence satisfy C06's invariant: "
+         "resolved_graph_invariant); arg_name_spec, spread_fill_spec, fill_must_be_last, access_spec, export_name_spec, "
+         "export_spread_name_spec, import_name_spec, let_only_names, expressions_only_extend; "
+         "illformed_rejected_at_construct (each of the nine classes <-> its diagnostic WITH the span start, at the "
+         "construct that detects it); resolved_document_encodes_its_wiring (with C01 enc_inv_reachable and C02 "
+         "wiring_correct: whenever the model encoder succeeds on a resolved document its log decodes to the wiring of "
+         "the graph the document denotes); the reference AS WRITTEN is contradicted by the faithful model in two places "
          "(access_spec_doc_refuted, export_spread_doc_refuted: vm_compute witness programs, replayed on the real "
-         "resolver). Tie: for every generated program (and one single-fault variant each) over "
-         "generated package libraries the real Document::parse+resolve(+encode) is compared with the extracted model "
-         "(error variant + span start + name, or the full graph dump) and the extracted reference verdict is checked "
-         "on the implementation's own observation.",
+         "resolver); the hypotheses of the simulation theorem are satisfiable and it applies to a concrete program "
+         "(Examples). Tie: for every generated program (and one single-fault variant each) over generated package "
+         "libraries the real Document::parse+resolve(+encode) is compared with the extracted model (error variant + "
+         "span start + name, or the full graph dump) and the extracted reference verdict is checked on the "
+         "implementation's own observation.",
     design_ref="DESIGN.md §5 C04",
-    note="Partial: WIT-like type declarations inside documents (type statements, inline interfaces, function types over "
-         "declared types) and the `targets` clause are out of scope here (C05/C11); generated programs use imports by "
-         "package path / primitive function types / local names, lets, new, access and exports. Typing questions go "
-         "through the subtype table computed by the real SubtypeChecker (oracle). Encoding is not modelled: validity and "
-         "the documented implicit/explicit import conflict are observed on the implementation only. Theorems about the "
-         "graph effect of a successful `new` are stated over the argument table (the graph edges are Graph.v's "
-         "set_arg, validated by C06).",
-    technique="Coq proof (list/table reasoning over a monadic resolver model) + extracted-model correspondence + "
-              "extracted reference evaluation of LANGUAGE.md checked on implementation observations")
+    note="Partial in scope: WIT-like type declarations inside documents (type statements, inline interfaces, function types "
+         "over declared types) and the `targets` clause are out of scope here (C05/C11); the model answers Unsupported, "
+         "the reference OutOfScope. Typing questions go through the subtype table computed by the real SubtypeChecker "
+         "(oracle); the universe well-formedness `uok` (bijective name table on the names in use, distinct import names "
+         "per package, kinds closed under the oracles) is a hypothesis of the simulation theorem, shown satisfiable. The "
+         "reference has no notion of source spans: span starts are covered by the per-construct theorems and by the "
+         "correspondence. Encoding is not modelled here (C01/C02/C08/C09): validity and the documented "
+         "implicit/explicit import conflict are observed on the implementation only.",
+    technique="Coq proof (simulation between a monadic resolver model over the graph model and a reference evaluation; "
+              "state relation with a per-node value map; reuse of C06's invariant through Graph.step) + extracted-model "
+              "correspondence + extracted reference evaluation of LANGUAGE.md checked on implementation observations")
 
 # ------------------------------------------------------------------ the reference text the specification is written from
 # (sentence fragments of LANGUAGE.md that LangSpec.v formalises; if one disappears the tie to the reference is broken)
